@@ -237,6 +237,102 @@ pub fn run_rustc_mode(p: &Paths, tag: &str, krate: &Crate, entropy: u64, hygiene
     Ok(Session { mods, control, unattributed, raw: if hygiene { stdout } else { String::new() } })
 }
 
+/// Hygiene-annotated expansion, made comparable across positions and item orders: every
+/// `/* symbol#ctxt */` annotation is replaced by the *transparency* of that syntax context
+/// (Opaque = def site, SemiOpaque = mixed site, Transparent = call site; the symbol number and the
+/// context number themselves depend on what else is in the crate), all blanks are dropped, and the
+/// text is split into the crate's modules.
+pub fn hygiene_normalise(stdout: &str) -> BTreeMap<usize, String> {
+    // context id -> transparency
+    let mut kinds: BTreeMap<u64, String> = BTreeMap::new();
+    if let Some(i) = stdout.find("SyntaxContexts:") {
+        for l in stdout[i..].lines() {
+            if let Some(rest) = l.strip_prefix('#') {
+                if let Some((id, tail)) = rest.split_once(':') {
+                    if let (Ok(id), Some(k)) = (id.trim().parse::<u64>(), tail.rsplit(',').next()) {
+                        kinds.insert(id, k.trim().trim_end_matches(')').to_string());
+                    }
+                }
+            }
+        }
+    }
+    let body = match stdout.find("\n/*\nExpansions:") {
+        Some(i) => &stdout[..i],
+        None => stdout,
+    };
+    let b = body.as_bytes();
+    let mut out = String::with_capacity(body.len());
+    let mut i = 0;
+    while i < b.len() {
+        if b[i] == b'/' && i + 1 < b.len() && b[i + 1] == b'*' {
+            let end = body[i + 2..].find("*/").map(|e| i + 2 + e).unwrap_or(b.len());
+            let inner = body[i + 2..end.min(body.len())].trim();
+            if let Some((sym, ctx)) = inner.split_once('#') {
+                if !sym.is_empty() && sym.bytes().all(|c| c.is_ascii_digit()) {
+                    if let Ok(c) = ctx.trim().parse::<u64>() {
+                        out.push('`');
+                        out.push_str(kinds.get(&c).map(|s| s.as_str()).unwrap_or("?"));
+                        out.push('`');
+                    }
+                }
+            }
+            i = (end + 2).min(b.len());
+        } else if b[i].is_ascii_whitespace() {
+            i += 1;
+        } else {
+            // copy one UTF-8 character
+            let ch = body[i..].chars().next().unwrap();
+            out.push(ch);
+            i += ch.len_utf8();
+        }
+    }
+    // split into modules `modm<id>`..`{ ... }`
+    let mut mods = BTreeMap::new();
+    let ob = out.as_bytes();
+    let mut pos = 0;
+    while let Some(k) = out[pos..].find("modm") {
+        let start = pos + k;
+        let mut j = start + 4;
+        let mut id = 0usize;
+        let mut digits = 0;
+        while j < ob.len() && ob[j].is_ascii_digit() {
+            id = id * 10 + (ob[j] - b'0') as usize;
+            j += 1;
+            digits += 1;
+        }
+        pos = j;
+        if digits == 0 {
+            continue;
+        }
+        // skip the annotation of the module name, expect `{`
+        let Some(open_rel) = out[j..].find('{') else { break };
+        if open_rel > 24 {
+            continue;
+        }
+        let open = j + open_rel;
+        let mut depth = 0i32;
+        let mut e = open;
+        while e < ob.len() {
+            match ob[e] {
+                b'{' => depth += 1,
+                b'}' => {
+                    depth -= 1;
+                    if depth == 0 {
+                        break;
+                    }
+                },
+                _ => {},
+            }
+            e += 1;
+        }
+        if e < ob.len() {
+            mods.insert(id, out[open..=e].to_string());
+            pos = e;
+        }
+    }
+    mods
+}
+
 fn paths(a: &Args) -> Paths {
     let verif = PathBuf::from(a.get("verif", "/verif"));
     Paths {
@@ -344,6 +440,7 @@ pub fn run(a: &Args, tier: &str, seed: u64) -> Result<E3Result, String> {
     let jobs = a.u64("e3-jobs", 16) as usize;
     let n_hygiene = if thorough { a.u64("e3-hygiene", 6) } else { a.u64("e3-hygiene", 2) };
     let mut hygiene_sessions = 0u64;
+    let mut hygiene_modules_compared = 0u64;
     let mut hygiene_violations = 0u64;
     let mut further_differing = 0u64;
 
@@ -354,6 +451,7 @@ pub fn run(a: &Args, tier: &str, seed: u64) -> Result<E3Result, String> {
         let mut flagged: BTreeSet<usize> = BTreeSet::new();
         let mut order_srcs: Vec<String> = vec![];
         let mut hygiene_ref: Option<(u64, String)> = None;
+        let mut hygiene_mod_ref: BTreeMap<usize, (String, u64, usize)> = BTreeMap::new();
         // plan every session of this crate first (all PRNG draws happen here, sequentially) ...
         struct Planned {
             oi: usize,
@@ -382,7 +480,7 @@ pub fn run(a: &Args, tier: &str, seed: u64) -> Result<E3Result, String> {
                 planned.push(Planned { oi, order_seed, entropy, krate: krate.clone(), hygiene: false });
                 // the first item order is also expanded with syntax-context annotations: the whole
                 // crate, hygiene marks included, must be identical across worlds
-                if oi == 0 && ei < n_hygiene {
+                if ei < n_hygiene {
                     planned.push(Planned { oi, order_seed, entropy, krate: krate.clone(), hygiene: true });
                 }
             }
@@ -417,6 +515,43 @@ pub fn run(a: &Args, tier: &str, seed: u64) -> Result<E3Result, String> {
                 if pl.hygiene {
                     invocations += 1;
                     hygiene_sessions += 1;
+                    // (a) per module, hygiene kinds instead of numbers: comparable across positions/orders
+                    for (id, text) in hygiene_normalise(&sess.raw) {
+                        hygiene_modules_compared += 1;
+                        match hygiene_mod_ref.get(&id) {
+                            None => {
+                                hygiene_mod_ref.insert(id, (text, entropy, oi));
+                            },
+                            Some((t0, e0, o0)) => {
+                                if *t0 != text && hygiene_violations == 0 {
+                                    hygiene_violations += 1;
+                                    let j = J::obj()
+                                        .set("property", J::s("C16"))
+                                        .set("engine", J::s("E3 real rustc + shipped libeduce.so + LD_PRELOAD shim (hygiene of one module, context numbers replaced by their transparency)"))
+                                        .set("verif_seed", J::s(seed.to_string()))
+                                        .set("signature", J::obj().set("kind", J::s("hygiene_of_module")).set("module", J::i(id as u64)))
+                                        .set("scenario", J::obj()
+                                            .set("crate", J::s(krate.src.clone()))
+                                            .set("crate_first", J::s(order_srcs[*o0].clone()))
+                                            .set("hygiene_module", J::Bool(true))
+                                            .set("module", J::i(id as u64))
+                                            .set("entropy", J::Arr(vec![J::s(e0.to_string()), J::s(entropy.to_string())])))
+                                        .set("diff", J::s(simple_diff(&t0.replace('`', " ` "), &text.replace('`', " ` "))));
+                                    let path = write_e3_replay(&replay_dir, &format!("C16-E3HM-{seed}-{ci}-{id}.json"), &j);
+                                    violations.push(
+                                        J::obj()
+                                            .set("engine", J::s("E3"))
+                                            .set("replay", path.map(|p| J::s(p.display().to_string())).unwrap_or(J::Null))
+                                            .set("signature", J::obj().set("kind", J::s("hygiene_of_module")).set("module", J::i(id as u64))),
+                                    );
+                                }
+                            },
+                        }
+                    }
+                    // (b) the whole crate, byte for byte, among sessions with the same item order
+                    if oi != 0 {
+                        continue;
+                    }
                     match &hygiene_ref {
                         None => hygiene_ref = Some((entropy, sess.raw.clone())),
                         Some((e0, raw0)) => {
@@ -580,6 +715,7 @@ pub fn run(a: &Args, tier: &str, seed: u64) -> Result<E3Result, String> {
         .set("entropy_values_per_order", J::i(n_entropy))
         .set("item_orders", J::i(n_orders as u64))
         .set("hygiene_annotated_sessions", J::i(hygiene_sessions))
+        .set("hygiene_normalised_module_expansions_compared", J::i(hygiene_modules_compared))
         .set("worlds", J::s("entropy value (=> hasher keys, wall-clock offset, pid, CARGO_*/LANG/TZ/SOURCE_DATE_EPOCH environment) x item order"))
         .set("control_module_stable", J::Bool(true))
         .set("further_differing_modules_not_minimised", J::i(further_differing))
@@ -632,6 +768,33 @@ pub fn replay(j: &J, path: &Path) -> i32 {
     };
     let ka = Crate { lines: line_table(&src_a), src: src_a };
     let kb = Crate { lines: line_table(&src_b), src: src_b };
+    if matches!(sc.get("hygiene_module"), Some(J::Bool(true))) {
+        return match (run_rustc_mode(&p, "replay-a", &ka, ents[0], true), run_rustc_mode(&p, "replay-b", &kb, ents[1], true)) {
+            (Ok(x), Ok(y)) => {
+                let (mx, my) = (hygiene_normalise(&x.raw), hygiene_normalise(&y.raw));
+                match (mx.get(&module), my.get(&module)) {
+                    (Some(a), Some(b)) if a != b => {
+                        println!("replay (E3, hygiene of module m{module}): differs between the two worlds");
+                        println!("{}", simple_diff(&a.replace('`', " ` "), &b.replace('`', " ` ")));
+                        println!("VIOLATION property=C16 replay={}", path.display());
+                        1
+                    },
+                    (Some(_), Some(_)) => {
+                        println!("replay (E3, hygiene of module): outcomes agree (no violation)");
+                        0
+                    },
+                    _ => {
+                        eprintln!("module m{module} not found in the hygiene output");
+                        2
+                    },
+                }
+            },
+            (Err(e), _) | (_, Err(e)) => {
+                eprintln!("harness error: {e}");
+                2
+            },
+        };
+    }
     if matches!(sc.get("hygiene"), Some(J::Bool(true))) {
         return match (run_rustc_mode(&p, "replay-a", &ka, ents[0], true), run_rustc_mode(&p, "replay-b", &kb, ents[1], true)) {
             (Ok(x), Ok(y)) if x.raw != y.raw => {
